@@ -169,6 +169,10 @@ class StochasticSearcher(BaseSearcher):
                 for pos, config in enumerate(restrict_configurations)
                 if pos not in remove_rc
             ]
+        else:
+            # Entries are popped off this list later on: it must not be the
+            # list object passed by the caller
+            restrict_configurations = list(restrict_configurations)
         return restrict_configurations
 
 
